@@ -198,6 +198,8 @@ def run(ctx):
     # `dim` included: the swapped row/column dimensions written into the caller's ndarray made a second identical call
     # raise InvalidDim (or, for dimension tables with equal totals, silently use other dimensions) -- F47
     r_effect_free(ctx, pt, ["rho", "sys", "dim"])
+    from ..rules import r_index_array_dtype
+    r_index_array_dtype(ctx, pt, "sys")
 
     # ---- the Variable path goes through the same two conversion helpers as partial_trace's --------------
     from .C02 import _helpers
